@@ -176,7 +176,8 @@ def run_tlc(pid, module, cfg=None, env=None, workers=None, simulate=None, depth=
         raise ToolError("TLC timed out after %ss on %s/%s" % (timeout, module, cfg))
     # TLC: 0 ok, 12 invariant violated, 10/11/13.. other violations, >=150 errors
     if res.rc not in (0, 12):
-        raise ToolError("TLC failed (rc=%s) on %s/%s:\n%s" % (res.rc, module, cfg, res.out[-3000:]))
+        msg = "\n".join(l for l in res.out.splitlines() if not l.startswith(("Parsing file", "Semantic processing", "Linting of")))
+        raise ToolError("TLC failed (rc=%s) on %s/%s:\n%s" % (res.rc, module, cfg, msg[-2500:]))
     return res
 
 
